@@ -382,7 +382,7 @@ theorem tr_coll (r : Rng) (b c : Ty) (fb : b.TF) (fc : c.TF)
     · simp only [Bool.and_eq_true] at h2; exact Rng.sub_trans h1 h2.1
     · unfold Ty.TF at fc; exact absurd fc id
   · unfold asgRecv at h2 ⊢; cases c <;> simp only [] at h2 ⊢ <;> (first | contradiction | skip)
-    · simp only [Bool.and_eq_true] at h2; exact Rng.sub_trans h1 h2.1.1
+    · rw [Bool.and_eq_true] at h2; exact Rng.sub_trans h1 h2.1
     · unfold Ty.TF at fc; exact absurd fc id
   · unfold Ty.TF at fb; exact absurd fb id
   · unfold Ty.TF at fb; exact absurd fb id
@@ -401,8 +401,16 @@ theorem tr_array (n : Nat) (ih : Trans cfg sfh n) (e : Ty) (r : Rng) (b c : Ty) 
       have fc := H.fc; unfold Ty.TF at fc
       have wc := H.wc; unfold Ty.WF at wc
       simp only [Ty.w] at hw
-      simp only [Bool.and_eq_true] at h1 h2 ⊢
-      exact ⟨Rng.sub_trans h1.1 h2.1, ih e e' e'' (by omega) ⟨fa, fb, fc, wb, wc⟩ h1.2 h2.2⟩
+      rw [Bool.and_eq_true] at h1 h2 ⊢
+      refine ⟨Rng.sub_trans h1.1 h2.1, ?_⟩
+      by_cases hz : r''.hi ≤ 0
+      · simp [hz]
+      · have hz' : ¬ r'.hi ≤ 0 := by
+          have := h2.1; simp [Rng.sub] at this; omega
+        have h12 := h1.2; have h22 := h2.2
+        simp only [Bool.or_eq_true, decide_eq_true_eq] at h12 h22 ⊢
+        right
+        exact ih e e' e'' (by omega) ⟨fa, fb, fc, wb, wc⟩ (h12.resolve_left hz') (h22.resolve_left hz)
     · have fc := H.fc; unfold Ty.TF at fc; exact absurd fc id
   · have fb := H.fb; unfold Ty.TF at fb; exact absurd fb id
 
@@ -420,9 +428,19 @@ theorem tr_hash (n : Nat) (ih : Trans cfg sfh n) (k v : Ty) (r : Rng) (b c : Ty)
       have fc := H.fc; unfold Ty.TF at fc
       have wc := H.wc; unfold Ty.WF at wc
       simp only [Ty.w] at hw
-      simp only [Bool.and_eq_true] at h1 h2 ⊢
-      exact ⟨⟨Rng.sub_trans h1.1.1 h2.1.1, ih k k' k'' (by omega) ⟨fa.1, fb.1, fc.1, wb.1, wc.1⟩ h1.1.2 h2.1.2⟩,
-        ih v v' v'' (by omega) ⟨fa.2, fb.2, fc.2, wb.2, wc.2⟩ h1.2 h2.2⟩
+      rw [Bool.and_eq_true] at h1 h2 ⊢
+      refine ⟨Rng.sub_trans h1.1 h2.1, ?_⟩
+      by_cases hz : r''.hi ≤ 0
+      · simp [hz]
+      · have hz' : ¬ r'.hi ≤ 0 := by
+          have := h2.1; simp [Rng.sub] at this; omega
+        have h12 := h1.2; have h22 := h2.2
+        simp only [Bool.or_eq_true, decide_eq_true_eq, Bool.and_eq_true] at h12 h22 ⊢
+        right
+        have hA := h12.resolve_left hz'
+        have hB := h22.resolve_left hz
+        exact ⟨ih k k' k'' (by omega) ⟨fa.1, fb.1, fc.1, wb.1, wc.1⟩ hA.1 hB.1,
+          ih v v' v'' (by omega) ⟨fa.2, fb.2, fc.2, wb.2, wc.2⟩ hA.2 hB.2⟩
     · have fc := H.fc; unfold Ty.TF at fc; exact absurd fc id
   · have fb := H.fb; unfold Ty.TF at fb; exact absurd fb id
 
